@@ -130,9 +130,26 @@ func init() {
 		zz + "Choice": func(it *Interp, fr *frame, a []Value) Value {
 			c := it.ctx
 			n := it.concretizeInt(termArg(a[0]), true)
+			if n <= 0 {
+				panic(&abort{"assume", "Choice(0)"})
+			}
 			v := it.fresh("i64", 64)
 			it.assume(c.Ult(v, c.BV(uint64(n), 64)))
-			return c.BV(uint64(it.concretizeInt(v, true)), 64)
+			// n-way fork; every alternative is feasible by construction (no solver call)
+			for i := int64(0); i < n-1; i++ {
+				if it.branchFree(c.Eq(v, c.BV(uint64(i), 64)), v.name, uint64(i), uint64(i+1)) {
+					return c.BV(uint64(i), 64)
+				}
+			}
+			last := c.Eq(v, c.BV(uint64(n-1), 64))
+			if it.depth >= it.prefixLen && it.model != nil && !it.noModel {
+				it.model[v.name] = uint64(n - 1)
+				it.ctx.NewEpoch()
+				it.addPC(last)
+			} else {
+				it.assume(last)
+			}
+			return c.BV(uint64(n-1), 64)
 		},
 		zz + "Concrete": func(it *Interp, fr *frame, a []Value) Value {
 			return it.ctx.BV(uint64(it.concretizeInt(termArg(a[0]), true)), 64)
